@@ -570,6 +570,8 @@ FitProblem make_fit(const Json &d) {
 			for (int j = 1; j + 1 < nk; j++) k[(size_t)j] += r.uniform(-0.3, 0.3) / (b - a);
 		std::sort(k.begin(), k.end());
 		p.knots.push_back(k);
+		// missing cells: keep the grid dense enough that every basis function still sees data
+		if (sparse > 0) np = std::max(np, 2 * nc + 2);
 		std::vector<double> c((size_t)np);
 		for (int j = 0; j < np; j++) c[(size_t)j] = (np == 1) ? 0.5 : (double)j / (np - 1) * 0.98 + 0.01;
 		p.coords.push_back(c);
@@ -589,6 +591,8 @@ FitProblem make_fit(const Json &d) {
 		double v;
 		if (data == "increasing") v = 1 + 2 * t + t * t + 0.2 * other * 0 + 0.5 * (other + (double)p.ndim);
 		else if (data == "noisy_increasing") v = 1 + 3 * t + 0.3 * other + 0.4 * r.normal();
+		else if (data == "very_noisy") v = 1 + 2 * t + 0.3 * other + 1.5 * r.normal();
+		else if (data == "dips") v = 1 + 4 * t + 0.8 * std::sin(25 * t + phase) + 0.2 * other + 0.2 * r.normal();
 		else if (data == "decreasing") v = 3 - 3 * t + 0.2 * other + 0.1 * r.normal();
 		else if (data == "oscillating") v = 1 + std::sin(9 * t + phase) + 0.3 * other;
 		else if (data == "constant") v = 2.5;
@@ -734,8 +738,9 @@ struct SchedHarness : Harness {
 				o.push(Json(ord)); nc.push(Json(c)); np.push(Json(c + 2 + (int)gen.below(8)));
 			}
 			prob["order"] = o; prob["ncoef"] = nc; prob["npts"] = np;
-			static const char *dk[] = {"increasing", "noisy_increasing", "noisy_increasing", "decreasing", "oscillating", "constant", "negative", "step", "random"};
-			prob["data"] = Json(dk[gen.below(9)]);
+			static const char *dk[] = {"increasing", "noisy_increasing", "noisy_increasing", "very_noisy", "very_noisy", "dips", "dips", "decreasing",
+			                           "oscillating", "oscillating", "constant", "negative", "step", "random", "random"};
+			prob["data"] = Json(dk[gen.below(15)]);
 			static const char *wk[] = {"ones", "random", "mixed"};
 			prob["weights"] = Json(wk[gen.below(3)]);
 			static const char *kk[] = {"uniform", "uniform", "irregular"};
@@ -900,7 +905,12 @@ struct SchedHarness : Harness {
 		if (!fr.ok) { ctx.violate(prop + "|fit_failed|monotonic", "fit threw: " + fr.err); return; }
 		for (size_t k = 0; k < fr.coef.size(); k++) ctx.log.ev("c[%zu]=%a", k, (double)fr.coef[k]);
 		ctx.count("fit_line_searches", G.line_searches);
+		// BLOCK3 gives up after 120 outer iterations (each updates the factor at least once)
+		bool capped1 = G.n_modify_factor >= 120;
+		if (capped1) ctx.count("probe:fit_solver_stopped_at_iteration_cap");
 		if (G.line_searches > 0) ctx.count("probe:fit_with_line_search");
+		ctx.count("fits_by_data:" + prob.gets("data"));
+		if (G.line_searches > 0) ctx.count("fits_with_ls_by_data:" + prob.gets("data"));
 		int64_t ls = G.line_searches;
 		// --- C12 oracle 6: same coefficients when every line search is done by the sequential model
 		{
@@ -917,9 +927,15 @@ struct SchedHarness : Harness {
 					}
 			}
 		}
-		if (plan.getb("cross_workers") && G.workers != 1) {
+		// "the same coefficients" across worker counts can only mean "up to the rounding the conditioning
+		// allows": the worker count legitimately steers modify_factor between up/down-dates and
+		// refactorisation. A penalty weight s makes the system's condition number grow like s, so the
+		// comparison is 1e-5 for s<=1, 1e-4 for s<=1e3 and is not made for s=1e6.
+		double smooth_w = prob.getd("smooth", 0);
+		double xtol = smooth_w <= 1 ? 1e-5 : 1e-4;
+		if (plan.getb("cross_workers") && G.workers != 1 && smooth_w <= 1e3) {
 			int save = psv_env_threads; psv_env_threads = 1;
-			G.ref_only = true;
+			G.ref_only = true; G.n_modify_factor = 0;
 			FitResult fr3;
 			SchedConfig s3; s3.policy = "oldest";
 			SchedOutcome o3 = Sched::run(s3, nullptr, [&]() { fr3 = run_fit(p); });
@@ -927,19 +943,19 @@ struct SchedHarness : Harness {
 			if (o3.kind == SchedOutcome::OK && fr3.ok) {
 				double cmax = 0; for (float v : fr.coef) cmax = std::max(cmax, (double)std::fabs(v));
 				for (size_t k = 0; k < fr.coef.size(); k++)
-					if (std::fabs((double)fr.coef[k] - (double)fr3.coef[k]) > 1e-5 * cmax + 1e-30) {
+					if (std::fabs((double)fr.coef[k] - (double)fr3.coef[k]) > xtol * cmax + 1e-30) {
 						char d[200]; snprintf(d, sizeof d, "coefficient %zu = %.9g with %d workers, %.9g with 1 worker", k, (double)fr.coef[k], G.workers, (double)fr3.coef[k]);
-						ctx.violate("C12|worker_count_dependent_result|fit", d); break;
+						ctx.violate(std::string("C12|worker_count_dependent_result|fit|") + ((capped1 || G.n_modify_factor >= 120) ? "solver_at_iteration_cap" : "converged"), d); break;
 					}
 				ctx.count("probe:cross_worker_count_compared");
 			}
 		}
 		// --- C10: monotone along monodim
-		check_monotone(p, fr, *table, ctx);
+		check_monotone(p, fr, *table, ctx, capped1);
 		if (o.preemptions > 0 || o.spurious_delivered > 0 || ls > 0) ctx.seen("nontrivial", hash_json(plan));
 	}
 
-	void check_monotone(const FitProblem &p, const FitResult &fr, const photospline::splinetable<> &t, RunCtx &ctx) {
+	void check_monotone(const FitProblem &p, const FitResult &fr, const photospline::splinetable<> &t, RunCtx &ctx, bool capped) {
 		uint32_t md = p.monodim;
 		uint64_t n = fr.naxes[md], st = fr.strides[md];
 		size_t total = fr.coef.size();
@@ -1021,7 +1037,7 @@ struct SchedHarness : Harness {
 					for (size_t cidx = 0; cidx < nc; cidx++)
 						if (std::fabs(cref[cidx] - (double)fr.coef[cidx]) > 1e-4 * (cmax + 1e-30)) {
 							char d[240]; snprintf(d, sizeof d, "unconstrained least-squares solution is non-negative and increasing with margin, yet coefficient %zu is %.9g instead of %.9g", cidx, (double)fr.coef[cidx], cref[cidx]);
-							ctx.violate("C10|inactive_constraint_changes_fit|fit", d); return;
+							ctx.violate(std::string("C10|inactive_constraint_changes_fit|fit|") + (capped ? "solver_at_iteration_cap" : "converged"), d); return;
 						}
 					ctx.count("probe:inactive_constraint_compared");
 				}
